@@ -57,7 +57,19 @@ def one_case(rng, tier):
         from .. import aprogs
         g = aprogs.AGen(rng, async_ops=ASYNC_HOLDERS, max_nodes=7, fail_prob=0.0, p_async=0.5)
         prog = g.program(min_async=1)
-        return {'prog': prog, 'producers': g.producers(prog, max_total=16), 'awaiting': rng.random() < 0.7,
+        prods = g.producers(prog, max_total=16)
+        ma = [s['id'] for s in prog['nodes'] if s['op'] == 'map_async']
+        if ma and rng.random() < 0.5:
+            # the node is stopped and started again from outside while elements are on their way (idle worker, busy worker,
+            # start() on a running node); every stop is followed by a start, so nothing is left waiting in a stopped node
+            for _ in range(rng.choice([1, 1, 2])):
+                p = rng.choice(prods)
+                pos = rng.randrange(len(p) + 1)
+                nid = rng.choice(ma)
+                calls = rng.choice([['stop', 'start'], ['stop', 'start'], ['start'], ['stop', 'stop', 'start'], ['start', 'start']])
+                for j, c in enumerate(calls):
+                    p.insert(pos + j, [rng.choice([0, 0, -1, -2, 0.25, 0.5, 1.0]), '!call', [nid, c], 0])
+        return {'prog': prog, 'producers': prods, 'awaiting': rng.random() < 0.7,
                 'family': 'async', 'inputs': [], 'mode': 'vloop'}
     g = progs.Gen(rng, max_nodes=12 if tier == 'thorough' else 10)
     prog = g.program()
